@@ -193,7 +193,7 @@ def delete (h : Heap) (node : Option Nat) : ListRes (Heap × Ans) := do
   | some _ => do
     let hd ← load h 0                                       -- head := &l.DoubleNode
     if hd.next.isNone && hd.prev.isNone then pure (h, .err)
-    else if hd.val = nd.val then do                         -- head.Value == node.Value
+    else if 0 = a then do                                   -- head == node
       let b ← ListRes.deref hd.next
       let bn ← load h b
       let h' ← relink (h.set 0 bn)                          -- l.DoubleNode = *head.next;  l.relink()
